@@ -86,6 +86,10 @@ class Library:
                 f.update(self.vecrit(n, ct, e))
             elif ct.startswith('tuple_'):
                 f.update(self.tuple(n, ct))
+            elif ct.startswith('pair_') and ct in ty.pair_elems:
+                a, b = ty.pair_elems[ct]
+                f['ext__make_pair__%s__%s_%s' % (n, S(a), S(b))] = ('static inline %s ext__make_pair__%s__%s_%s(%s a, %s b) { %s p; p.first = a; p.second = b; return p; }'
+                                                                  % (ct, n, S(a), S(b), a, b, ct))
             elif ct.startswith('uptr_'):
                 f.update(self.uptr(n, ct, e))
             elif ct.startswith('mapit_'):
@@ -103,7 +107,7 @@ class Library:
         cands = self.candidates()
         need = []
         seen = set()
-        text = body_text
+        text = body_text + '\n' + spec_text      # the spec may use library functions too (e.g. tuple comparison in a contract)
         changed = True
         while changed:
             changed = False
@@ -146,16 +150,19 @@ class Library:
         f['ext__make_tuple__%s__%s' % (n, '_'.join(S(e) for e in es))] = \
             'static inline %s ext__make_tuple__%s__%s(%s) { %s t; %s return t; }' % (ct, n, '_'.join(S(e) for e in es), args, ct, sets)
 
-        def cmp3(res_gt, res_lt, res_eq):
-            body = ''
-            for i, e in enumerate(es):
-                if e in ('float', 'double'):
-                    body += ' if (a.e%d != a.e%d || b.e%d != b.e%d) return 0;' % (i, i, i, i)
-                body += ' if (a.e%d > b.e%d) return %s; if (a.e%d < b.e%d) return %s;' % (i, i, res_gt, i, i, res_lt)
-            return body + ' return %s;' % res_eq
-        for op, (g, l, q) in {'op_gt': ('1', '0', '0'), 'op_lt': ('0', '1', '0'), 'op_ge': ('1', '0', '1'),
-                              'op_le': ('0', '1', '1'), 'op_eq': ('0', '0', '1')}.items():
-            f['%s__%s' % (n, op)] = 'static inline _Bool %s__%s(%s a, %s b) {%s }' % (n, op, ct, ct, cmp3(g, l, q))
+        # three-way: -1 less, 0 equivalent, 1 greater, 2 unordered (a NaN met before a decision)
+        body = ''
+        for i, e in enumerate(es):
+            if e in ('float', 'double'):
+                body += ' if (a.e%d != a.e%d || b.e%d != b.e%d) return 2;' % (i, i, i, i)
+            if e.startswith('tuple_'):
+                body += ' { int c = %s__cmp3(a.e%d, b.e%d); if (c != 0) return c; }' % (S(e), i, i)
+            else:
+                body += ' if (a.e%d > b.e%d) return 1; if (a.e%d < b.e%d) return -1;' % (i, i, i, i)
+        f['%s__cmp3' % n] = 'static inline int %s__cmp3(%s a, %s b) {%s return 0; }' % (n, ct, ct, body)
+        for op, cond in {'op_gt': 'c == 1', 'op_lt': 'c == -1', 'op_ge': 'c == 0 || c == 1', 'op_le': 'c == 0 || c == -1',
+                         'op_eq': 'c == 0'}.items():
+            f['%s__%s' % (n, op)] = 'static inline _Bool %s__%s(%s a, %s b) { int c = %s__cmp3(a, b); return %s; }' % (n, op, ct, ct, n, cond)
         for i, e in enumerate(es):
             f['ext__get_%d__%s' % (i, n)] = 'static inline %s ext__get_%d__%s(%s t) { return t.e%d; }' % (e, i, n, ct, i)
         return f
